@@ -40,6 +40,95 @@ func rangeElem(s *Sym) (*Sym, bool) {
 	return nil, false
 }
 
+// forAllCall: call evaluates an "every listed priority has a non-zero share" helper (forAllShape)
+// - directly, or through a private wrapper that only forwards its parameters to one
+// (distributed.isFilled(combination) = common.IsPrioritiesFilled(combination, distributed)).
+// list and dist are the call's own arguments that reach the helper's slice and map parameters.
+func (p *Prog) forAllCall(call *ssa.Call) (over string, list, dist ssa.Value, ok bool) {
+	if call == nil {
+		return "", nil, nil, false
+	}
+	cal := p.Callee(call)
+	if cal == nil {
+		return "", nil, nil, false
+	}
+	pick := func(g *ssa.Function, args []ssa.Value) {
+		for i, par := range g.Params {
+			if i >= len(args) {
+				break
+			}
+			switch par.Type().Underlying().(type) {
+			case *types.Slice:
+				if list == nil {
+					list = args[i]
+				}
+			case *types.Map:
+				if dist == nil {
+					dist = args[i]
+				}
+			}
+		}
+	}
+	if o, isFA := p.forAllShape(cal); isFA {
+		pick(cal, call.Call.Args)
+		return o, list, dist, true
+	}
+	if !p.IsProduct(cal) || !returnsBoolOnly(cal) {
+		return "", nil, nil, false
+	}
+	var body *ssa.BasicBlock
+	for _, b := range cal.Blocks {
+		if b == cal.Recover {
+			continue
+		}
+		if body != nil {
+			return "", nil, nil, false
+		}
+		body = b
+	}
+	if body == nil || len(body.Instrs) == 0 {
+		return "", nil, nil, false
+	}
+	ret, isRet := body.Instrs[len(body.Instrs)-1].(*ssa.Return)
+	if !isRet || len(ret.Results) != 1 {
+		return "", nil, nil, false
+	}
+	inner, isCall := ret.Results[0].(*ssa.Call)
+	if !isCall {
+		return "", nil, nil, false
+	}
+	for _, in := range body.Instrs[:len(body.Instrs)-1] {
+		switch x := in.(type) {
+		case *ssa.DebugRef, *ssa.ChangeType:
+		case *ssa.Call:
+			if x != inner {
+				return "", nil, nil, false
+			}
+		default:
+			return "", nil, nil, false
+		}
+	}
+	g := p.Callee(inner)
+	o, isFA := p.forAllShape(g)
+	if !isFA {
+		return "", nil, nil, false
+	}
+	args := make([]ssa.Value, len(inner.Call.Args))
+	for i, a := range inner.Call.Args {
+		par, isPar := stripChangeType(a).(*ssa.Parameter)
+		if !isPar {
+			return "", nil, nil, false
+		}
+		idx := paramIndex(cal, par)
+		if idx < 0 || idx >= len(call.Call.Args) {
+			return "", nil, nil, false
+		}
+		args[i] = call.Call.Args[idx]
+	}
+	pick(g, args)
+	return o, list, dist, true
+}
+
 // forAllShape classifies a boolean helper "every element is non-zero": over="slice" when it
 // visits a slice parameter and looks each element up in a map parameter, "map" when it visits
 // the entries of a map parameter.
@@ -185,8 +274,34 @@ func (p *Prog) comparatorFn(v ssa.Value, depth int) *ssa.Function {
 }
 
 func (p *Prog) isDescendingSort(fn *ssa.Function) bool {
-	if fn == nil || len(fn.Params) != 1 {
+	return p.isDescendingSortD(fn, 0)
+}
+
+func (p *Prog) isDescendingSortD(fn *ssa.Function, depth int) bool {
+	if fn == nil || len(fn.Params) != 1 || depth > 2 {
 		return false
+	}
+	// a wrapper that only hands its slice on (SortPriorities(x) = list(x).sortDescending())
+	if len(fn.Blocks) == 1 {
+		var only *ssa.Call
+		plain := true
+		for _, in := range fn.Blocks[0].Instrs {
+			switch x := in.(type) {
+			case *ssa.DebugRef, *ssa.ChangeType, *ssa.Return:
+			case *ssa.Call:
+				if only != nil {
+					plain = false
+				}
+				only = x
+			default:
+				plain = false
+			}
+		}
+		if plain && only != nil && len(only.Call.Args) == 1 && stripChangeType(only.Call.Args[0]) == ssa.Value(fn.Params[0]) {
+			if g := p.Callee(only); g != nil && p.IsProduct(g) && g != fn {
+				return p.isDescendingSortD(g, depth+1)
+			}
+		}
 	}
 	for _, b := range fn.Blocks {
 		for _, in := range b.Instrs {
@@ -388,7 +503,7 @@ func checkD1(c *Ctx, pr *prioRoles) {
 				// compute the strategic shares into a new map
 				allowed := fn == pr.safeDivideFn
 				if pr.v1 && !allowed {
-					for _, ref := range *call.Referrers() {
+					for _, ref := range refConvReferrers(call) {
 						if _, isSt := fieldStore(ref, "strategic"); isSt && isNilConst(call.Call.Args[2]) {
 							allowed = true
 						}
@@ -846,9 +961,12 @@ func checkD7D8(c *Ctx) {
 					continue
 				}
 				cal := p.Callee(call)
-				over, isForAll := p.forAllShape(cal)
+				over, faList, faDist, isForAll := p.forAllCall(call)
 				if !isForAll {
 					continue
+				}
+				if g := p.forwardsTo(fn); g != fn {
+					continue // fn only forwards to the test: decided where fn is called
 				}
 				found = true
 				key := p.FnKey(fn) + "#zero-share-test"
@@ -865,7 +983,7 @@ func checkD7D8(c *Ctx) {
 							}
 						}
 					}
-					if div == nil || div.Call.Args[1] != call.Call.Args[0] || div.Call.Args[3] != call.Call.Args[1] {
+					if div == nil || faList == nil || faDist == nil || div.Call.Args[1] != stripRefConv(faList) || stripRefConv(div.Call.Args[3]) != stripRefConv(faDist) {
 						problems = append(problems, "the zero-share test is not applied to the list and distribution of the strategic division")
 					}
 				}
